@@ -179,6 +179,12 @@ def run(ctx):
         for h_ in handlers:
             sets = [x for x in ast.walk(h_) if isinstance(x, ast.Assign) and any(is_self_attr(t, "matching_sequences") for t in x.targets) and isinstance(x.value, ast.Constant) and x.value.value is False]
             top = [x for x in h_.body if x in sets]
+            # `self._flag_mismatch()`: a private setter that does the same assignment unconditionally
+            selfcalls = [x.value for x in h_.body if isinstance(x, ast.Expr) and isinstance(x.value, ast.Call) and is_self_attr(x.value.func)]
+            for c_ in selfcalls:
+                for callee in ctx.callees(ev_.fi, c_):
+                    if any(isinstance(y, ast.Assign) and any(is_self_attr(t, "matching_sequences") for t in y.targets) and isinstance(y.value, ast.Constant) and y.value.value is False for y in callee.node.body):
+                        top.append(c_)
             raises = any(isinstance(x, ast.Raise) for x in h_.body)
             # does the function hand the mismatch back to its caller instead (a second return value)?
             rets = [r for r in walk_no_nested(ev_.fi.node) if isinstance(r, ast.Return) and isinstance(r.value, ast.Tuple)]
@@ -445,6 +451,84 @@ def run(ctx):
                         ok = True
             res.add("K-IDX", f, norm(n), "condition", "ok" if ok else ("unknown" if any_if or v.enclosing_all(n, (ast.If,)) else "violation"), "" if ok else "the inverse mapping is not applied exactly when an initial hypergraph was given", loc(v.fi, n))
     res.assumptions += ["numpy Generators constructed from equal seeds produce equal streams (library)", "degree / size conditioning and chain invariants are not decided (set algebra + asserts)"]
+    # ---- Y-DYADONCE: with exact dyadic sampling the sampled pairs are used ONCE: folded into the degree / size sequence that is
+    #      sampled (when the other one is given), or handed to the chain as fixed hyperedges (when neither is given).  The path
+    #      conditions of "fold" and "append as fixed" exclude each other - decided on the truth table of their atoms (local flags
+    #      are read through their definitions: `deg_seq_given = deg_seq is not None`)
+    with res.guard("Y-DYADONCE"):
+        res.rules["Y-DYADONCE"] = "the exactly sampled pairs are never both folded into a conditioned sequence and appended as fixed hyperedges (the two path conditions exclude each other)"
+        import itertools as _it
+
+        sfi = ctx.require("HyMMSBMSampler._sampling_from_sequences")
+        sv = ctx.view(sfi)
+
+        def flag_def(name):
+            ds = [a for a in walk_no_nested(sfi.node) if isinstance(a, ast.Assign) and len(a.targets) == 1 and isinstance(a.targets[0], ast.Name) and a.targets[0].id == name]
+            return ds[0].value if len(ds) == 1 and isinstance(ds[0].value, (ast.Compare, ast.BoolOp, ast.UnaryOp)) and sv.enclosing(ds[0], (ast.For, ast.While, ast.If)) is None else None
+
+        def ev(e, env, atoms):
+            if isinstance(e, ast.BoolOp):
+                vals = [ev(x, env, atoms) for x in e.values]
+                return all(vals) if isinstance(e.op, ast.And) else any(vals)
+            if isinstance(e, ast.UnaryOp) and isinstance(e.op, ast.Not):
+                return not ev(e.operand, env, atoms)
+            if isinstance(e, ast.Name) and flag_def(e.id) is not None:
+                return ev(flag_def(e.id), env, atoms)
+            if isinstance(e, ast.Compare) and len(e.ops) == 1 and isinstance(e.ops[0], (ast.Is, ast.IsNot)) and isinstance(e.comparators[0], ast.Constant) and e.comparators[0].value is None:
+                key = norm(e.left) + " is None"
+                atoms.add(key)
+                val = env.get(key, False)
+                return val if isinstance(e.ops[0], ast.Is) else not val
+            key = norm(e)
+            atoms.add(key)
+            return env.get(key, False)
+
+        def path_condition(node):
+            out = []
+            cur = node
+            while True:
+                par = sv.parent.get(id(cur))
+                if par is None or par is sfi.node:
+                    break
+                if isinstance(par, ast.If):
+                    if any(cur is x for x in par.body):
+                        out.append((par.test, True))
+                    elif any(cur is x for x in par.orelse):
+                        out.append((par.test, False))
+                cur = par
+            return out
+
+        def holds(conds, env, atoms):
+            return all(ev(t, env, atoms) == pol for t, pol in conds)
+
+        uses_edges = lambda e: any(isinstance(x, ast.Name) and x.id == "edges" for x in ast.walk(e))
+        fixed = [a for a in walk_no_nested(sfi.node) if isinstance(a, ast.Assign) and any(isinstance(t, ast.Name) and "fixed" in t.id for t in a.targets) and uses_edges(a.value)]
+        folds = [a for a in walk_no_nested(sfi.node) if isinstance(a, (ast.AugAssign, ast.Assign)) and uses_edges(a.value) and any(("deg_seq" in norm(t) or "dim_seq" in norm(t)) for t in ([a.target] if isinstance(a, ast.AugAssign) else a.targets))]
+        if not fixed or not folds:
+            res.unknown("Y-DYADONCE", sfi.short, "fixed_hyperedges = ... edges ...", "exclusive", "the statements that fold the sampled pairs into a sequence / append them as fixed hyperedges were not recognised", loc(sfi, sfi.node))
+        for fx in fixed:
+            cf = path_condition(fx)
+            # `fixed_hyperedges = [...edges...] if <cond> else None`: the arm that uses the pairs runs under the test of the expression
+            if isinstance(fx.value, ast.IfExp):
+                if uses_edges(fx.value.body) and not uses_edges(fx.value.orelse):
+                    cf = cf + [(fx.value.test, True)]
+                elif uses_edges(fx.value.orelse) and not uses_edges(fx.value.body):
+                    cf = cf + [(fx.value.test, False)]
+            for fo in folds:
+                co = path_condition(fo)
+                atoms = set()
+                holds(cf + co, {}, atoms)
+                alist = sorted(atoms)
+                both = None
+                if len(alist) <= 8:
+                    for bits in _it.product((False, True), repeat=len(alist)):
+                        env = dict(zip(alist, bits))
+                        if holds(cf, env, set()) and holds(co, env, set()):
+                            both = env
+                            break
+                    res.check(both is None, "Y-DYADONCE", sfi.short, norm(fx)[:80], f"vs {norm(fo)[:40]}", f"`{norm(fo)[:50]}` (the sampled pairs are folded into the sampled sequence) and `{norm(fx)[:50]}` (they are appended as fixed hyperedges) can both run - e.g. when {', '.join(k_ for k_, b_ in (both or {}).items() if b_) or 'no atom holds'}: the pairs are counted twice, so the conditioned sizes / degrees are exceeded", loc(sfi, fx))
+                else:
+                    res.unknown("Y-DYADONCE", sfi.short, norm(fx)[:80], f"vs {norm(fo)[:40]}", "too many atoms in the path conditions", loc(sfi, fx))
     with res.guard("general lint pack over the property's files"):
         from ..lints import check_pack
 
